@@ -297,4 +297,11 @@ def circuit(draw, nmin=2, nmax=6, max_branches=10, source_kinds_v=('dc_voltage_s
     if gm > 0:
         g = {'kind': 'ground', 'id': ids[-1], 'nodes': [names[draw(st.integers(0, n - 1))]], 'args': {}}
         comps.insert(draw(st.integers(0, len(comps))), g)
+    if draw(st.integers(0, 11)) == 0:
+        # hand-written descriptions carry Python ints (R=10, V=5, w=50, L=1): every scalar that is integral anyway,
+        # and a share of the others, rounded to an int
+        for c in comps:
+            for key, v in list(c['args'].items()):
+                if isinstance(v, float) and key in ('R', 'G', 'V', 'I', 'L', 'C', 'P', 'V_ref', 'w') and abs(v) >= 1 and (v == int(v) or draw(st.booleans())):
+                    c['args'][key] = int(round(v))
     return {'components': comps}
